@@ -30,7 +30,7 @@ Choose ==
   /\ phase = "init"
   /\ \E a \in Md, b \in Md, txt \in BOOLEAN, hid \in BOOLEAN, bak \in BOOLEAN, ord \in Orders,
         sub \in {0, 1, 2}, c \in Md, stxt \in BOOLEAN, assets \in BOOLEAN, rootcopy \in BOOLEAN,
-        assets2 \in BOOLEAN, subcopy \in BOOLEAN, subassets \in BOOLEAN, missfirst \in BOOLEAN :
+        assets2 \in BOOLEAN, subcopy \in BOOLEAN, subassets \in BOOLEAN, missfirst \in BOOLEAN, ccopy \in BOOLEAN :
        /\ (ord = "ba") => (a # 0 /\ b # 0)           \* ordered_subpage names existing entries only
        /\ (ord = "b_only") => b # 0
        /\ (ord = "sub_first") => sub # 0
@@ -40,8 +40,9 @@ Choose ==
        /\ (sub = 2) => (~assets2 /\ ~subcopy)         \* metadata lives in the index page
        /\ rootcopy => assets
        /\ subcopy => assets2
+       /\ ccopy => (sub = 1 /\ c = 1)      \* the ordinary page sub/c.md names a directory of its own in copy_subdir (the setting is per page)
        /\ t' = [a |-> a, b |-> b, txt |-> txt, hid |-> hid, bak |-> bak, ord |-> ord, sub |-> sub, c |-> c, stxt |-> stxt,
-                assets |-> assets, rootcopy |-> rootcopy, assets2 |-> assets2, subcopy |-> subcopy, subassets |-> subassets, missfirst |-> missfirst]
+                assets |-> assets, rootcopy |-> rootcopy, assets2 |-> assets2, subcopy |-> subcopy, subassets |-> subassets, missfirst |-> missfirst, ccopy |-> ccopy]
   /\ phase' = "chosen" /\ UNCHANGED out
 
 (* ---- Ref ---------------------------------------------------------------------- *)
@@ -73,6 +74,7 @@ RefFiles == (IF t.txt THEN {"notes.txt"} ELSE {})
             \cup (IF t.rootcopy THEN {"assets/img.png", "assets/stray.md"} ELSE {})
             \cup (IF t.sub = 1 /\ t.subcopy THEN {"sub/assets2/img2.png", "sub/assets2/index.md"} ELSE {})
             \cup (IF t.sub = 1 /\ t.assets2 /\ ~t.subcopy THEN {"sub/assets2/img2.png"} ELSE {})
+            \cup (IF t.ccopy THEN {"sub/cdata/x.dat"} ELSE {})
 
 (* ---- Impl ---------------------------------------------------------------------- *)
 (* root level: parent is None, so nothing is ever skipped as copy_subdir; `assets` has no index.md and yields no node.  *)
@@ -86,6 +88,7 @@ ImplFiles == (IF t.txt THEN {"notes.txt"} ELSE {})
              \cup (IF t.rootcopy THEN {"assets/img.png", "assets/stray.md"} ELSE {})
              \cup (IF t.sub = 1 /\ t.subcopy THEN {"sub/assets2/img2.png", "sub/assets2/index.md"} ELSE {})
              \cup (IF t.sub = 1 /\ t.assets2 /\ ~ImplSkipAssets2 THEN {"sub/assets2/img2.png"} ELSE {})
+             \cup (IF t.ccopy THEN {"sub/cdata/x.dat"} ELSE {})
 
 Emit == /\ phase = "chosen" /\ phase' = "done"
         /\ out' = [pages |-> RefPages, files |-> RefFiles, ipages |-> ImplPages, ifiles |-> ImplFiles]
